@@ -2,8 +2,15 @@
 
 Runs the real saml2.assertion.filter_on_attributes / Policy.filter / Policy.restrict /
 Assertion.apply_policy (with a real MetadataStore parsed from rendered SP metadata, with a stub
-store, or without a store) and the real Server.create_authn_response (AttributeStatement read back
-with xml.etree); Coq evaluates model = implementation and the property on the implementation's output.
+store, or without a store; with and without the fail_on_missing argument) and the real
+Server.create_authn_response (best_effort unset / False / True; the outcome kind - assertion with its
+AttributeStatement, or error response without assertion - is read back with xml.etree); Coq evaluates
+model = implementation and the property on the implementation's output.
+
+Findings C10-F1 (best_effort hard-coded, MissingValue => unfiltered identity) and C10-F2 (entity
+categories skipped without a metadata store) are FIXED in /repo (a4e3dbdd, 47cc754e): Corr.cls still
+names the two input classes, and since findings/C10.json marks them fixed a case of either class whose
+outcome breaks the property is a VIOLATION again.
 """
 import copy
 import importlib
@@ -28,10 +35,15 @@ RULE = ("complete products: Policy.get precedence (presence of requester / regis
         "required/optional x fail flag), duplicated RequestedAttributes (4x4 value lists x 3 placements), every "
         "bundled entity-category module x every subset (<=2, all tuple keys) of its categories x required none/some, "
         "attribute_restrictions shapes 6 x value shapes 5 x key case 3, subject-id requirement 6 x identity 4 x fail 3 "
-        "x store kind 2; widened by seeded random identities x policies x requester metadata on all four entry "
-        "points and ~200 cases through Server.create_authn_response.  non-trivial = distinct (entry point, applicable "
-        "section kind, restriction kind, entity-category mode, declaration shape, outcome) classes other than "
-        "'nothing configured, everything released'")
+        "x store kind 2; Server.create_authn_response: best_effort 3 (unset/False/True) x which required attribute "
+        "cannot be supplied 6 (none / absent / subject-id / listed value not held / absent+value / two absent) x "
+        "fail_on_missing_requested 3 (unset/True/False) x attribute_restrictions 2; the fail_on_missing argument 3 "
+        "(None/True/False) of Policy.filter / restrict / Assertion.apply_policy x value shapes; Policy WITHOUT "
+        "metadata store x every entity-category module (and pairs) x entry point 3 x attribute_restrictions; "
+        "widened by seeded random identities x policies x requester metadata on all four entry "
+        "points and ~190 random cases through Server.create_authn_response.  non-trivial = distinct (entry point, "
+        "best_effort / fail_on_missing argument, applicable section kind, restriction kind, entity-category mode, "
+        "declaration shape, outcome) classes other than 'nothing configured, everything released'")
 TRUSTED = ["Python re (regex matching enters as data: bool(re.compile(r).match(v)))",
            "attribute maps (get_local_name result enters as data; C17 covers the maps)",
            "abstraction functions and SP-metadata / policy-config renderers in harness/c10.py",
@@ -254,10 +266,12 @@ def mk_md(mode="real", ras=(), sid=None, ecs=(), ra=None, split=0):
     return {"mode": mode, "ras": list(ras), "sid": sid, "ecs": list(ecs), "ra": ra, "split": split}
 
 
-def mk_case(tag, entry, ident, pol=None, md=None, req=(), opt=(), fail=True, rng=None, be=None):
+def mk_case(tag, entry, ident, pol=None, md=None, req=(), opt=(), fail=True, rng=None, be=None, fo=None):
+    """be: best_effort given to create_authn_response (None: not given = False).
+    fo: fail_on_missing given to Policy.filter / restrict / Assertion.apply_policy (None: not given)."""
     return {"tag": tag, "entry": entry, "ident": [[k, v] for k, v in ident], "pol": pol,
             "polcfg": render_policy(pol, rng), "sp": SP, "md": md, "req": list(req), "opt": list(opt),
-            "fail": fail, "be": be}
+            "fail": fail, "be": be, "fo": fo}
 
 
 # ------------------------------------------------------------------------------ rendering for the real code
@@ -398,9 +412,16 @@ def observe(case):
             resp = idp.create_authn_response(ident, "req-1", world.SP_ACS_POST, case["sp"], name_id=nid,
                                              authn=dict(_AUTHN), **kw)
             root = ET.fromstring(str(resp))
+            if root.tag != NS_P + "Response":
+                raise RuntimeError("not a Response")
             code = root.find(NS_P + "Status/" + NS_P + "StatusCode").get("Value")
-            if not code.endswith(":Success") or root.find(NS_A + "Assertion") is None:
-                out = {"k": "missing"}
+            success = code.endswith(":Success")
+            n_assertions = len(list(root.iter(NS_A + "Assertion"))) + len(list(root.iter(NS_A + "EncryptedAssertion")))
+            if not success and n_assertions == 0:
+                # the outcome kind "an error is returned instead of an assertion"
+                out = {"k": "missing", "via": "error-response"}
+            elif not success or n_assertions != 1:
+                raise RuntimeError("neither an assertion nor an error response")
             else:
                 rel = {}
                 for a in root.iter(NS_A + "Attribute"):
@@ -412,22 +433,26 @@ def observe(case):
         else:
             store = make_store(case["md"])
             pol = A.Policy(copy.deepcopy(case["polcfg"]), store)
+            fkw = {} if case.get("fo") is None else {"fail_on_missing": case["fo"]}
             if entry == "filter":
                 r = pol.filter(ident, case["sp"], required=[ra_dict(x) for x in case["req"]] or None,
-                               optional=[ra_dict(x) for x in case["opt"]] or None)
+                               optional=[ra_dict(x) for x in case["opt"]] or None, **fkw)
                 out = {"k": "ok", "ava": abs_ava(r)}
             elif entry == "restrict":
-                r = pol.restrict(ident, case["sp"])
+                r = pol.restrict(ident, case["sp"], **fkw)
                 out = {"k": "ok", "ava": abs_ava(r)}
             else:
                 ast = A.Assertion(ident)
                 try:
-                    r = ast.apply_policy(case["sp"], pol)
+                    r = ast.apply_policy(case["sp"], pol, **fkw)
                     out = {"k": "ok", "ava": abs_ava(r)}
                 finally:
                     self_after = abs_ava(dict(ast))
     except MissingValue:
-        out = {"k": "missing"}
+        if entry == "server":      # create_authn_response is written to answer a MissingValue with an error response
+            out = {"k": "crash", "exc": "MissingValue"}
+        else:
+            out = {"k": "missing", "via": "exception"}
     except Exception as e:  # any other exception: nothing is released
         out = {"k": "crash", "exc": type(e).__name__}
     # regex matrix, exactly as the code asks the engine
@@ -547,9 +572,12 @@ def coq_case(case, obs):
         ent = "(EFoa %s %s %s)" % (cq(bool(case["fail"])), cq([cq_ra(r) for r in case["req"]]),
                                    cq([cq_ra(r) for r in case["opt"]]))
     elif e == "filter":
-        ent = "(EFilter %s %s)" % (cq([cq_ra(r) for r in case["req"]]), cq([cq_ra(r) for r in case["opt"]]))
+        ent = "(EFilter %s %s %s)" % (cq([cq_ra(r) for r in case["req"]]), cq([cq_ra(r) for r in case["opt"]]),
+                                      cq_opt(case.get("fo")))
+    elif e == "server":
+        ent = "(EServer %s)" % cq(bool(case["be"]))       # best_effort not given = False
     else:
-        ent = {"restrict": "ERestrict", "apply": "EApply", "server": "EServer"}[e]
+        ent = "(%s %s)" % ({"restrict": "ERestrict", "apply": "EApply"}[e], cq_opt(case.get("fo")))
     return "C10.Corr.mk %s %s %s %s %s %s %s %s %s" % (
         cq_ava(case["ident"]), cq_pol(case["pol"]), cs(case["sp"]), cq_md(case["md"]), ent,
         cq([(cs(r), cs(v)) for r, v in obs["mt"]]), cq_out(obs["out"]), cq_ava(obs["caller"]),
@@ -791,6 +819,23 @@ def gen_values(rng):
                     pol = [["default", mk_sec(None, fail)]]
                     md = mk_md(rng.choice(["real", "stub"]), [dict(r, isreq="true" if reqd else "false")])
                     cases.append(mk_case("values", rng.choice(["restrict", "apply"]), ident, pol, md, rng=rng))
+                    # the fail_on_missing argument overrides the section (a4e3dbdd), on every Policy-level entry
+                    for fo in (True, False):
+                        entry = rng.choice(["restrict", "apply", "filter"])
+                        kw = {"req": [r] if reqd else [], "opt": [] if reqd else [r]} if entry == "filter" else {}
+                        cases.append(mk_case("values-fo", entry, ident, copy.deepcopy(pol), copy.deepcopy(md), rng=rng,
+                                             fo=fo, **kw))
+    # ... also when the required attribute is absent altogether, and under every section setting
+    need = ra_for("givenName", "uri", "right")
+    for fail in (None, True, False):
+        for fo in (None, True, False):
+            for entry in ("restrict", "apply", "filter"):
+                for have in (False, True):
+                    ident = [("mail", ["a"]), ("sn", ["x"])] + ([("givenName", ["g"])] if have else [])
+                    pol = [["default", mk_sec(None, fail)]]
+                    md = mk_md("real", [dict(need, isreq="true"), ra_for("mail", "uri", "right", isreq="false")])
+                    kw = {"req": [need], "opt": [ra_for("mail", "uri", "right")]} if entry == "filter" else {}
+                    cases.append(mk_case("absent-fo", entry, ident, pol, md, rng=rng, fo=fo, **kw))
     return cases
 
 
@@ -855,10 +900,43 @@ def gen_ec(rng, thorough):
         md = mk_md(mode, rand_ras(rng, ident, mode == "real"), None,
                    rng.sample(cats, min(len(cats), rng.choice([0, 1, 2, 3]))))
         cases.append(mk_case("ec2", "restrict", ident, pol, md, rng=rng))
-    # entity categories configured, no metadata store (finding class 2)
+    # entity categories configured, Policy WITHOUT metadata store (class of the fixed finding C10-F2): the
+    # requester is in no category, only what the configured categories release to everybody ("" key) passes
     for mod in EC_MODULES:
-        ident = [("mail", ["a@example.org"]), ("Foo", ["x"])]
-        cases.append(mk_case("ec-nostore", "restrict", ident, [["default", mk_sec(None, None, [mod])]], None, rng=rng))
+        always = list(_ec_module(mod).RELEASE.get("", []))
+        others = [a for items in _ec_module(mod).RELEASE.values() for a in items if a not in always]
+        for entry in ("restrict", "apply", "filter"):
+            for ar in (None, "always", "other"):
+                ident = {"mail": ["a@example.org"], "Foo": ["x"]}
+                for a in always[:2]:
+                    ident[rng.choice([a, a, a.lower(), a.upper()])] = ["t1", "t2"]
+                for a in rng.sample(others, min(len(others), 2)):
+                    ident.setdefault(a, ["o"])
+                ident = list(ident.items())
+                ard = None
+                if ar == "always" and always:
+                    ard = [[always[0].lower(), None]]
+                elif ar == "other":
+                    ard = [["mail", None], ["foo", [".*"]]]
+                req = [ra_for("mail", "uri", "right")] if entry == "filter" else []
+                cases.append(mk_case("ec-nostore", entry, ident, [["default", mk_sec(ard, rng.choice([None, False]), [mod])]],
+                                     None, req=req, rng=rng))
+    for _ in range(40 if not thorough else 300):
+        mods = rng.sample(EC_MODULES, rng.choice([1, 2, 2]))
+        ident = rand_ident(rng, names=["mail", "givenName", "sn", "eduPersonTargetedID", "cn", "o", "uid", "Foo",
+                                       "displayName", "eduPersonPrincipalName", "norEduPersonNIN"])
+        ident = [(k, v) for k, v in ident if k]
+        who = rng.choice(["default", "default", SP, ""])
+        pol = [[who, mk_sec(rand_ar(rng, ident) if rng.random() < 0.4 else None, rng.choice([None, True, False]), mods)]]
+        if who == SP and rng.random() < 0.5:
+            pol.append(["default", mk_sec(None, None, [])])
+        entry = rng.choice(["restrict", "apply", "filter"])
+        kw = {}
+        if entry == "filter":
+            ras = rand_ras(rng, ident, False)
+            kw = {"req": [r for r in ras if r["isreq"] == "true"], "opt": [r for r in ras if r["isreq"] != "true"]}
+        cases.append(mk_case("ec-nostore-rand", entry, ident, pol, None, rng=rng,
+                             fo=rng.choice([None, None, True, False]), **kw))
     return cases
 
 
@@ -912,30 +990,58 @@ def gen_random(rng, n, entries):
         ec = any((sec or {}).get("ecs") for _, sec in (pol or []))
         if ec:
             ident = [(k, v) for k, v in ident if k]
-        md = None if (rng.random() < 0.12 and not ec) else rand_md(rng, ident, pol)
+        md = None if rng.random() < 0.12 else rand_md(rng, ident, pol)
+        fo = rng.choice([None, None, None, True, False])
         if md is not None and ra_known and rng.random() < 0.7:
             md["ra"] = ra_known
         if entry == "filter":
             ras = rand_ras(rng, ident, False)
             req = [r for r in ras if r["isreq"] == "true"]
             opt = [r for r in ras if r["isreq"] != "true"]
-            cases.append(mk_case("rand-filter", "filter", ident, pol, md, req=req, opt=opt, rng=rng))
+            cases.append(mk_case("rand-filter", "filter", ident, pol, md, req=req, opt=opt, rng=rng, fo=fo))
         else:
-            cases.append(mk_case("rand-" + entry, entry, ident, pol, md, rng=rng))
+            cases.append(mk_case("rand-" + entry, entry, ident, pol, md, rng=rng, fo=fo))
+    return cases
+
+
+MISSING_KINDS = ("none", "absent", "sid", "value", "absent+value", "two-absent")
+
+
+def server_product(rng):
+    """Server.create_authn_response: best_effort {unset, False, True} x which required attribute cannot be supplied
+    x fail_on_missing_requested {unset, True, False} x attribute_restrictions {none, mail only}.
+    The identity always holds attributes nobody asked for (eduPersonEntitlement, title)."""
+    cases = []
+    for be in (None, False, True):
+        for missing in MISSING_KINDS:
+            for fail in (None, True, False):
+                for ar in (None, [["mail", None]]):
+                    ident = [("mail", ["a@example.org", "b@example.org"]), ("eduPersonEntitlement", ["urn:x:secret"]),
+                             ("title", "The man"), ("sn", ["x"])]
+                    ras = [ra_for("mail", "uri", "right"), ra_for("sn", "uri", "right", isreq="false")]
+                    sid = None
+                    if missing == "none":
+                        ras.append(ra_for("title", "uri", "right"))
+                    elif missing == "absent":
+                        ras.append(ra_for("givenName", "uri", "right"))
+                    elif missing == "sid":
+                        sid = "pairwise-id"
+                    elif missing == "value":
+                        # listed value the user does not hold: _filter_values(must=True) raises on EVERY pass
+                        ras[0] = ra_for("mail", "uri", "right", ["c@example.net"])
+                    elif missing == "absent+value":
+                        # first pass fails on givenName; the best-effort pass then fails on the mail value
+                        ras = [ra_for("givenName", "uri", "right"), ra_for("mail", "uri", "right", ["c@example.net"])]
+                    else:
+                        ras = [ra_for("givenName", "uri", "right"), ra_for("mail", "uri", "right", ["b@example.org"]),
+                               ra_for("displayName", "basic", "right")]
+                    pol = [[rng.choice(["default", SP]), mk_sec(copy.deepcopy(ar), fail)]]
+                    cases.append(mk_case("server-missing", "server", ident, pol, mk_md("real", ras, sid), rng=rng, be=be))
     return cases
 
 
 def gen_server(rng, n):
-    cases = []
-    # the shape of finding 1: a required attribute the user lacks; with and without best_effort=False
-    for be in (None, False):
-        for lacking in ("givenName", "pairwise-id"):
-            ident = [("mail", ["a@example.org"]), ("eduPersonEntitlement", ["urn:x:secret"]), ("title", "The man")]
-            ras = [ra_for("mail", "uri", "right"), ra_for(lacking, "uri", "right")]
-            pol = [["default", mk_sec(None, None)]]
-            cases.append(mk_case("server-missing", "server", ident, pol, mk_md("real", ras), rng=rng, be=be))
-            pol = [["default", mk_sec([["mail", None]], True)]]
-            cases.append(mk_case("server-missing", "server", ident, pol, mk_md("real", ras), rng=rng, be=be))
+    cases = server_product(rng)
     for i in range(n):
         ident = rand_ident(rng, server=True)
         ra_known = rng.choice([None, RA1])
@@ -943,14 +1049,14 @@ def gen_server(rng, n):
         md = rand_md(rng, ident, pol, mode="real")
         if ra_known and rng.random() < 0.7:
             md["ra"] = ra_known
-        if rng.random() < 0.5:
+        if rng.random() < 0.4:
             # make the declaration satisfiable more often: only optional / held attributes
             for r in md["ras"]:
                 if r["isreq"] == "true" and rng.random() < 0.7:
                     r["isreq"] = "false"
             if rng.random() < 0.7:
                 md["sid"] = None
-        cases.append(mk_case("server", "server", ident, pol, md, rng=rng, be=rng.choice([None, None, False, True])))
+        cases.append(mk_case("server", "server", ident, pol, md, rng=rng, be=rng.choice([None, False, True, True])))
     return cases
 
 
@@ -983,12 +1089,14 @@ def nontrivial(case, obs):
     shrunk = out == "ok" and sorted(map(str, obs["out"]["ava"])) != sorted(map(str, obs["caller"]))
     if not pol and decl is None and not shrunk and out == "ok":
         return None
-    return (case["entry"], seckinds if len(seckinds) <= 2 else len(seckinds), decl, out, shrunk)
+    return (case["entry"], case.get("be"), case.get("fo"), seckinds if len(seckinds) <= 2 else len(seckinds), decl, out,
+            shrunk)
 
 
 def histogram(cases, observed):
     h = {"by_tag": {}, "by_entry": {}, "outcome": {}, "exceptions": {}, "store": {}, "released_fraction": {},
-         "str_valued_attrs": 0, "repeated_values": 0, "ec_sections": 0, "regex_sections": 0}
+         "str_valued_attrs": 0, "repeated_values": 0, "ec_sections": 0, "regex_sections": 0,
+         "server_best_effort_x_outcome": {}, "fail_on_missing_arg_x_outcome": {}, "nostore_with_entity_categories": {}}
     for c, o in zip(cases, observed):
         h["by_tag"][c["tag"]] = h["by_tag"].get(c["tag"], 0) + 1
         h["by_entry"][c["entry"]] = h["by_entry"].get(c["entry"], 0) + 1
@@ -998,6 +1106,19 @@ def histogram(cases, observed):
             h["exceptions"][o["out"]["exc"]] = h["exceptions"].get(o["out"]["exc"], 0) + 1
         st = "none" if c["md"] is None else c["md"]["mode"]
         h["store"][st] = h["store"].get(st, 0) + 1
+        kind = "assertion" if k == "ok" else ("error-response" if o["out"].get("via") == "error-response" else
+                                              "MissingValue" if k == "missing" else "exception")
+        if c["entry"] == "server":
+            key = "best_effort=%s -> %s" % (c["be"], kind)
+            h["server_best_effort_x_outcome"][key] = h["server_best_effort_x_outcome"].get(key, 0) + 1
+        elif c["entry"] != "foa":
+            key = "fail_on_missing=%s -> %s" % (c.get("fo"), kind)
+            h["fail_on_missing_arg_x_outcome"][key] = h["fail_on_missing_arg_x_outcome"].get(key, 0) + 1
+        if c["md"] is None and any(s_ and s_["ecs"] for _, s_ in (c["pol"] or [])):
+            key = "%s -> %s" % (c["entry"], kind if k != "ok" else
+                                ("all" if len(c["ident"]) == len(o["out"]["ava"]) else
+                                 "none" if not o["out"]["ava"] else "some"))
+            h["nostore_with_entity_categories"][key] = h["nostore_with_entity_categories"].get(key, 0) + 1
         if k == "ok":
             n, m = len(c["ident"]), len(o["out"]["ava"])
             key = "all" if n == m else ("none" if m == 0 else "some")
